@@ -91,6 +91,18 @@ check('C01', 'proof',
       'Trusted: Coq kernel, extraction + driver, harness; zlib and json are oracles applied identically on both sides (inflate(deflate z ++ pad) = z is assumed of zlib); Cryptodome is replaced by the Coq Blowfish and compared with it.',
       'Coq proof (Feistel/chain/container round-trip) + generated instance theorems + differential run', 'DESIGN.md §6 C01')
 
+check('C11', 'proof',
+      'Coq theorems: for every inventory in which each bundled directory carries its definitions (instance-checked on the working tree), a wows/wowp '
+      'replay is played with the four-component directory if bundled, otherwise the three-component one, controller and definitions ALWAYS from the '
+      'same directory; a version with neither is refused with the "not supported" error, a directory without controller with AssertionError, wot with '
+      'ImportError - never another version\'s data; the renumbered table is selected iff major > 12 or (major = 12 and minor >= 6) (numeric, so 12.10 > '
+      '12.6); the wows version string with any blanks around the commas yields the parts as written. Tie: inventory, prefix literals, slices and '
+      'threshold regenerated from the working tree (import of every version module; AST) with instance theorems; normalisation and selection of '
+      'the library (list handed to the player class, controller module, definitions directory, packet table identity, exception class) vs the '
+      'extracted model for every bundled directory x builds and for unbundled versions; get_info error/hidden/raise.',
+      'Trusted: Coq kernel, extraction + driver, translators/harness; importlib and packaging.version are modelled (directory exists <=> importable; numeric release comparison), str slicing is modelled on ASCII prefixes.',
+      'Coq proof of the selection model + generated inventory instance theorems + differential run', 'DESIGN.md §6 C11')
+
 NOT_YET = {}
 ALL = ['C%02d' % i for i in range(1, 20)]
 def main():
